@@ -108,6 +108,8 @@ pub trait Tab: Send {
     fn fmt_display(&self) -> String;
     fn fmt_lower_hex(&self) -> String;
     fn fmt_binary(&self) -> String;
+    /// formatting with a non-default format specification (index into FMT_SPECS)
+    fn fmt_spec(&self, kind: usize) -> String;
     // comparisons
     fn eq_(&self, o: &dyn Tab) -> bool;
     fn ne_(&self, o: &dyn Tab) -> bool;
@@ -123,6 +125,11 @@ pub trait Tab: Send {
     /// nth / skip / step_by, if any, are the code under test): kind 0 = nth(k), 1 = skip(k).next(),
     /// 2 = first three items of step_by(s), 3 = nth(k) then nth(s) on the same iterator
     fn iter_adaptor(&self, kind: u8, k: usize, s: usize) -> Vec<Option<T>>;
+    /// consuming adaptors on the library's iterator started at self (only for starts close to the
+    /// end): (number of items, last item) obtained through kind 0 = count() and last() on two
+    /// iterators, 1 = fold, 2 = for_each, 3 = collect::<Vec<_>>(), 4 = (max(), by count of filter),
+    /// 5 = by_ref loop then count()
+    fn iter_consume(&self, kind: u8) -> (usize, Option<T>);
     // conversions
     /// Lut -> LutN (N = requested), LutN -> Lut (requested ignored)
     fn convert(&self, requested_n: usize) -> Result<T, ()>;
@@ -148,6 +155,8 @@ pub trait Family: Sync {
     fn all_functions(&self, n: usize) -> Box<dyn Iterator<Item = T>>;
     /// all_functions(n).nth(k), called directly on the library's iterator type
     fn all_functions_nth(&self, n: usize, k: usize) -> Option<T>;
+    /// consuming adaptors (as Tab::iter_consume) on all_functions(n) itself
+    fn all_functions_consume(&self, n: usize, kind: u8) -> (usize, Option<T>);
     /// bdd_complexity of an empty list (static: typed by n)
     fn bdd_complexity_empty(&self, n: usize) -> usize;
     /// From<u8/u16/u32/u64> for Lut3..Lut6 (static family only)
@@ -155,6 +164,73 @@ pub trait Family: Sync {
 }
 
 pub struct W<L>(pub L);
+
+/// non-default format specifications exercised on the formatting traits
+pub const FMT_SPECS: [&str; 10] = ["{:#x}", "{:#b}", "{:#}", "{:>40}", "{:<40x}", "{:^80b}", "{:.3}", "{:+}", "{:12.4x}", "{:-^30}"];
+
+macro_rules! fmt_spec_impl {
+    ($v:expr, $kind:expr) => {
+        match $kind {
+            0 => format!("{:#x}", $v),
+            1 => format!("{:#b}", $v),
+            2 => format!("{:#}", $v),
+            3 => format!("{:>40}", $v),
+            4 => format!("{:<40x}", $v),
+            5 => format!("{:^80b}", $v),
+            6 => format!("{:.3}", $v),
+            7 => format!("{:+}", $v),
+            8 => format!("{:12.4x}", $v),
+            _ => format!("{:-^30}", $v),
+        }
+    };
+}
+
+macro_rules! consume_impl {
+    ($it:expr, $mk:expr, $kind:expr, $b:expr) => {{
+        match $kind {
+            0 => {
+                let c = $it.count();
+                let l = $mk.last();
+                (c, l.map($b))
+            }
+            1 => {
+                let (c, l) = $it.fold((0usize, None), |(c, _), x| (c + 1, Some(x)));
+                (c, l.map($b))
+            }
+            2 => {
+                let mut c = 0usize;
+                let mut l = None;
+                $it.for_each(|x| {
+                    c += 1;
+                    l = Some(x);
+                });
+                (c, l.map($b))
+            }
+            3 => {
+                let v: Vec<_> = $it.collect();
+                let c = v.len();
+                (c, v.into_iter().last().map($b))
+            }
+            4 => {
+                let c = $it.filter(|_| true).count();
+                let l = $mk.max();
+                (c, l.map($b))
+            }
+            _ => {
+                let mut it = $it;
+                let mut c = 0usize;
+                let mut l = None;
+                for x in it.by_ref().take(3) {
+                    c += 1;
+                    l = Some(x);
+                }
+                let rest = $mk.skip(c).last();
+                c += it.count();
+                (c, rest.or(l).map($b))
+            }
+        }
+    }};
+}
 
 fn inner<'a, L: 'static>(t: &'a dyn Tab) -> &'a L {
     &t.as_any()
@@ -326,6 +402,9 @@ macro_rules! impl_tab {
             fn fmt_binary(&self) -> String {
                 format!("{:b}", self.0)
             }
+            fn fmt_spec(&self, kind: usize) -> String {
+                fmt_spec_impl!(self.0, kind)
+            }
             fn eq_(&self, o: &dyn Tab) -> bool {
                 self.0 == *inner::<$ty>(o)
             }
@@ -370,6 +449,10 @@ macro_rules! impl_tab {
                         vec![x, y]
                     }
                 }
+            }
+            fn iter_consume(&self, kind: u8) -> (usize, Option<T>) {
+                let b = |l: $ty| Box::new(W(l)) as T;
+                consume_impl!(<$ty>::verif_all_functions_from(&self.0), <$ty>::verif_all_functions_from(&self.0), kind, b)
             }
             fn convert(&self, requested_n: usize) -> Result<T, ()> {
                 let f: fn(&$ty, usize) -> Result<T, ()> = $convert;
@@ -533,6 +616,9 @@ impl Family for DynFam {
     fn all_functions_nth(&self, n: usize, k: usize) -> Option<T> {
         Lut::all_functions(n).nth(k).map(bx)
     }
+    fn all_functions_consume(&self, n: usize, kind: u8) -> (usize, Option<T>) {
+        consume_impl!(Lut::all_functions(n), Lut::all_functions(n), kind, bx)
+    }
     fn bdd_complexity_empty(&self, _n: usize) -> usize {
         Lut::bdd_complexity(&[])
     }
@@ -586,6 +672,9 @@ impl Family for StatFam {
     }
     fn all_functions_nth(&self, n: usize, k: usize) -> Option<T> {
         with_static!(n, L => L::all_functions().nth(k).map(bx))
+    }
+    fn all_functions_consume(&self, n: usize, kind: u8) -> (usize, Option<T>) {
+        with_static!(n, L => consume_impl!(L::all_functions(), L::all_functions(), kind, bx))
     }
     fn bdd_complexity_empty(&self, n: usize) -> usize {
         with_static!(n, L => L::bdd_complexity(&[]))
